@@ -12,6 +12,7 @@ import io
 import json
 import os
 import pickle
+import signal
 import subprocess
 import sys
 import time
@@ -205,6 +206,7 @@ class Server:
         # mypy and with the daemon.
         options.num_workers = 0
         self.status_file = status_file
+        self.status_file_removed = False
 
         # Since the object is created in the parent process we can check
         # the output terminal options here.
@@ -221,6 +223,9 @@ class Server:
         server = IPCServer(CONNECTION_NAME, self.timeout)
         orig_stdout = sys.stdout
         orig_stderr = sys.stderr
+        if sys.platform != "win32":
+            # Leave through the finally block below (which removes the status file) on SIGTERM too.
+            signal.signal(signal.SIGTERM, lambda signum, frame: sys.exit(1))
 
         try:
             with open(self.status_file, "w") as f:
@@ -264,7 +269,8 @@ class Server:
                         send(server, resp)
                     except OSError:
                         pass  # Maybe the client hung up
-                    if command == "stop":
+                    if self.status_file_removed:
+                        # cmd_stop ran
                         reset_global_state()
                         sys.exit(0)
         finally:
@@ -277,7 +283,7 @@ class Server:
             # simplify the logic and always remove the file, since
             # that could cause us to remove a future server's
             # status file.)
-            if command != "stop":
+            if not self.status_file_removed:
                 os.unlink(self.status_file)
             try:
                 server.cleanup()  # try to remove the socket dir on Linux
@@ -327,6 +333,7 @@ class Server:
         # command can see a status file from a dying server and think
         # it is a live one.
         os.unlink(self.status_file)
+        self.status_file_removed = True
         return {}
 
     def cmd_run(
